@@ -3,15 +3,17 @@ C06 — property theorems (sparse matrices and linear operators).
 Helper lemmas live in OFV/Proofs/C06*.lean.  Every theorem is audited with `#print axioms`.
 The Model functions named here are the ones `ofv-driver` executes in the correspondence run.
 
-Not proved (see OPEN_STATEMENTS in harness/c06.py): the end-to-end statements
-  `qubit_sparse_sound`: entries of `qubitOperatorSparse n A` = `Spec.C06.specMatrix .qubit n A`,
-  `jw_sparse_sound`, `matvec_sound`, `diagonal_sound`;
+Proved end-to-end for one term: `qubit_term_matrix_sound` (the Kronecker chain of a Pauli string is
+its matrix in the big-endian basis, all register sizes).  Not proved (see OPEN_STATEMENTS in
+harness/c06.py): the coordinate assembly over several terms (`qubitTermTriplets` with the swapped
+`nonzero()` order, `canonEntries`), `jw_sparse_sound`, `matvec_sound`, `diagonal_sound`;
 they are covered by the exact correspondence run and the Spec oracle.
 -/
 import OFV.Model.C06
 import OFV.Spec.C06
 import OFV.Proofs.C06Basic
 import OFV.Proofs.C06Kron
+import OFV.Proofs.C06Term
 
 namespace OFV.C06
 open OFV OFV.Spec OFV.Spec.C06 OFV.Model OFV.Model.C06 OFV.Proofs.C06
@@ -69,6 +71,21 @@ theorem qubit_term_shape (n : Nat) (t : List (Nat × Nat)) (c : GQ)
   qubitTermFactors_shape n t c hp hn
 
 example : (kronList (qubitTermFactors 4 [(1, 2), (2, 3)] 1)).rows = 16 := by decide
+
+/-- `qubit_sparse_sound`, term level: for a Pauli string `t` (strictly increasing qubits `< n`,
+actions X/Y/Z), any coefficient `c` and any register size `n`, the matrix
+`kronecker_operators([c, I…, P_1, I…, P_2, …, I…])` built by `qubit_operator_sparse` has at
+(row `beIndex n u`, column `beIndex n s`) the value `c · ⟨u| t |s⟩` of the Spec action, for all
+basis states `s, u < 2^n` — i.e. it is the matrix of `c·t` in the big-endian computational basis. -/
+theorem qubit_term_matrix_sound (n : Nat) (t : List (Nat × Nat)) (c : GQ)
+    (hp : t.Pairwise (fun f g => f.1 < g.1)) (hv : ∀ f ∈ t, 1 ≤ f.2 ∧ f.2 ≤ 3) (hn : ∀ f ∈ t, f.1 < n)
+    (s u : Nat) (hs : s < 2 ^ n) (hu : u < 2 ^ n) :
+    (kronList (qubitTermFactors n t c)).get (beIndex n u) (beIndex n s) = c * Spec.C07.ampP t s u :=
+  qubitTermFactors_get n t c hp hv hn s u hs hu
+
+example : (kronList (qubitTermFactors 3 [(0, 2), (2, 3)] ⟨2, 0⟩)).get (beIndex 3 0b101) (beIndex 3 0b100) = ⟨0, -2⟩ ∧
+    Spec.C07.ampP [(0, 2), (2, 3)] 0b100 0b101 = ⟨0, -1⟩ := by
+  refine ⟨by decide +kernel, by decide +kernel⟩
 
 /-! ### the big-endian index convention -/
 
